@@ -520,7 +520,7 @@ def c01_custom(pid, tier, plan, scr, hbin, specdir):
         d = scr.sub(name)
         inp, out = os.path.join(d, "behaviours.json"), os.path.join(d, "rec.ndjson")
         json.dump(behs, open(inp, "w"))
-        vlib.harness(hbin, ["twin", "-in", inp, "-out", out], timeout=3000)
+        vlib.harness(hbin, ["twin", "-in", inp, "-out", out], timeout=9000)
         recs.append((out, source, len(behs)))
         cov["crash_points_executed"] += sum(1 for b in behs for e in b if e["a"] == "Crash")
 
